@@ -323,6 +323,7 @@ func RunC11(env *Env, rep *Report) {
 			cases = append(cases, c11Case(l, kinds, "while", "pos1", "text", "eqnum"))
 		}
 	}
+	cases = append(cases, c11ConstCase("fixed"), c11ConstCase("pos0"))
 	one := &lvl{operands: []*opnd{{}}}
 	for _, cfg := range []string{"fixed", "pos0", "pos1", "pos-out-of-range"} {
 		for _, ak := range []string{"one", "two", "text"} {
@@ -362,3 +363,47 @@ func RunC11(env *Env, rep *Report) {
 }
 
 func avsVar(cs *Case) Tok { return cs.Variants[0].Opt.AVs[0].VarName }
+
+// c11ConstCase: constants around an autovar condition. With a fixed var name
+// the configured name is not a script token, so a constant of that name does
+// not rewrite the comparison; with an argument position the compared var is
+// the argument as it is rendered in the command (constants expanded once).
+func c11ConstCase(cfg string) *Case {
+	atoms := &AtomTable{Coded: true}
+	sname := atoms.New(ClsUserName, "script", "names")
+	av := atoms.New(ClsPlainCmd, "av", "cmds")
+	yes := atoms.New(ClsPlainCmd, "yes", "cmds")
+	k1 := atoms.New(ClsIdent, "const", "consts")
+	k2 := atoms.New(ClsIdent, "const", "consts")
+	v2 := atoms.New(ClsIdent, "cv", "consts")
+	arg := atoms.New(ClsIdent, "arg", "consts")
+	res := atoms.New(ClsIdent, "res", "")
+	// const k1 = k2 (declared before k2, so k1's value is the NAME k2), const k2 = v2
+	var src string
+	var spec AVSpec
+	if cfg == "fixed" {
+		spec = AVSpec{Name: A(av), VarName: A(res), Pos: -1}
+		src = fmt.Sprintf("const %s = %s\nscript %s {\n  if (%s(%s) == 1) {\n    %s\n  }\n}", k1.Placeholder(), v2.Placeholder(), sname.Placeholder(), av.Placeholder(), arg.Placeholder(), yes.Placeholder())
+	} else {
+		spec = AVSpec{Name: A(av), VarName: L(""), Pos: 0}
+		src = fmt.Sprintf("const %s = %s\nconst %s = %s\nscript %s {\n  if (%s(%s) == 1) {\n    %s\n  }\n}", k1.Placeholder(), k2.Placeholder(), k2.Placeholder(), v2.Placeholder(), sname.Placeholder(), av.Placeholder(), k1.Placeholder(), yes.Placeholder())
+	}
+	prog := &Program{Atoms: atoms, Tops: []interface{}{&TopRaw{Text: src}}}
+	variants := []Variant{{Name: "opt", Opt: CompileOpts{Optimize: true, AVs: []AVSpec{spec}}}, {Name: "noopt", Opt: CompileOpts{AVs: []AVSpec{spec}}}}
+	cs := &Case{Name: "c11/constants/" + cfg, Prog: prog, Variants: variants, NonTrivial: true, Shape: c11Shape{Context: "constants", Config: cfg}, MaxPaths: 64}
+	ref := bisimOracle("autovar-constants", func(x *OracleCtx) []*Script {
+		var cmdArg, cmpVar interp.Value
+		if cfg == "fixed" {
+			cmdArg, cmpVar = arg.Val, res.Val
+			// the result var may itself be the constant's name: it still is not rewritten
+		} else {
+			// k1 was defined as the bare identifier k2 (k2 not yet a constant): argument text = k2's name
+			cmdArg, cmpVar = k2.Val, k2.Val
+		}
+		use := &AVUse{Name: A(av), Args: [][]Tok{{{V: cmdArg}}}, VarName: cmpVar}
+		lf := &Leaf{Kind: "autovar", AV: use, Op: "==", Value: []Tok{L("1")}}
+		return []*Script{{Name: sname, Body: []Stmt{&If{Conds: []*Expr{{Kind: ELeaf, Leaf: lf}}, Bodies: [][]Stmt{{&Cmd{Name: A(yes)}}}}}}}
+	}, nil)
+	cs.Oracle = ref
+	return cs
+}
